@@ -81,7 +81,7 @@
  "tier": "wip",
  "harness": "h_write_cached",
  "enforce": ["unix_write_blk64"],
- "replace": ["reuse_cache", "flush_cached_blocks", "raw_write_blk", "memcpy"],
+ "replace": ["flush_cached_blocks", "raw_write_blk", "memcpy"],
  "loop_contracts": true,
  "unwind": 64,
  "unwindset": {"build_channel.0": 9, "find_cached_block.0": 9},
